@@ -49,12 +49,43 @@ C(f"{F}:Tokenizer.diagnose", params=T, returns="Tok",
 
 STACK_OK = "all(self._stack[j].type == Token.OP or self._stack[j].type == Token.ENDMARKER for j in range(len(self._stack)))"
 
-C(f"{F}:Tokenizer.consume_macro_params", params=T, returns="Tok", verify=False,
-  why_assumed="raw-capture loop over the generator with optional locals: outside the executor's subset; bounded stand-in only (C03/C07)",
-  requires=["self._call_macro"], modifies=["self._tokengen", "self._stack", "self._call_macro"],
-  ensures=["tk_ok(self)", "not endmarker_pulled(self) or len(self._stack) > 0", "gen_pos(self) - old(gen_pos(self)) >= 1 + len(self._stack) - old(len(self._stack))",
-           "implies(old(toks_wf(self)), toks_wf(self) and tok_wf(result))"],
-  may_raise=["SyntaxError"], properties=["C07"])
+P0 = "old(gen_pos(self))"
+C(f"{F}:Tokenizer.consume_macro_params", params=T, returns="Tok",
+  requires=["self._call_macro", "tk_ok(self)"],
+  requires_assumed={"not endmarker_pulled(self)": "flag protocol (C07/C14 obligations + stand-in): the raw stream is not exhausted while _call_macro is set",
+                    "all(gen_item(self, j).type != Token.OP or len(gen_item(self, j).string) > 0 for j in range(0, gen_len(self)))":
+                    "contract of _tokenize: operator lexemes are non-empty (regex epsilon-freeness lemma C08.rx; f-string braces are literals)",
+                    "len(self._stack) == 0":
+                    "flag protocol: a pushed-back token is popped by the next peek() before a macro start rule can set _call_macro again",
+                    "all(pos_le(node_end(gen_item(self, j)), node_start(gen_item(self, j + 1))) for j in range(0, gen_len(self) - 1))":
+                    "C08: raw tokens appear in non-decreasing, non-overlapping position order"},
+  modifies=["self._tokengen", "self._stack", "self._call_macro"],
+  loops={0: {"inv": [f"gen_pos(self) >= {P0}", "gen_pos(self) <= gen_len(self)", "self._call_macro", "self._stack == old(self._stack)",
+                     # C07: `string` is the verbatim concatenation of every raw token pulled so far, none skipped, reordered or altered
+                     f"string == gen_cat(self, {P0}, gen_pos(self))",
+                     f"(start is None) == (gen_pos(self) == {P0})", "(end is None) == (start is None)",
+                     f"implies(start is not None, start == node_start(gen_item(self, {P0})) and line == gen_item(self, {P0}).line)",
+                     "implies(end is not None, end == node_end(gen_item(self, gen_pos(self) - 1)))",
+                     f"all(gen_item(self, j).type != Token.ENDMARKER for j in range({P0}, gen_pos(self)))",
+                     "implies(start is not None and old(toks_wf(self)), pos_le(start, end))",
+                     "implies(old(toks_wf(self)), toks_wf(self))"],
+             "types": {"start": "optv[pos]", "end": "optv[pos]", "paren_level": "seq[str]", "string": "str", "line": "str", "tok": "Tok"},
+             "nodec_ok": True}},
+  ensures=["tk_ok(self)", "not endmarker_pulled(self) or len(self._stack) > 0",
+           "gen_pos(self) - old(gen_pos(self)) >= 1 + len(self._stack) - old(len(self._stack))",
+           "implies(old(toks_wf(self)), toks_wf(self) and tok_wf(result))",
+           # C07: the delimiter is the last raw token pulled and is a real `,` / `)` operator token ...
+           "gen_item(self, gen_pos(self) - 1).type == Token.OP",
+           "gen_item(self, gen_pos(self) - 1).string == ',' or gen_item(self, gen_pos(self) - 1).string == ')'",
+           # ... a closing parenthesis is handed back to the parser and ends raw capture, a comma continues it
+           "implies(gen_item(self, gen_pos(self) - 1).string == ')', not self._call_macro)",
+           "implies(gen_item(self, gen_pos(self) - 1).string == ',', self._call_macro and self._stack == old(self._stack))",
+           # ... and a MACRO_PARAM / WS result carries exactly the text of the raw tokens before the delimiter, spanning first.start .. last.end
+           f"implies(result.type == Token.MACRO_PARAM or result.type == Token.WS, result.string == gen_cat(self, {P0}, gen_pos(self) - 1)"
+           f" and result.start == node_start(gen_item(self, {P0})) and result.end == node_end(gen_item(self, gen_pos(self) - 2)))",
+           f"result.type == Token.MACRO_PARAM or result.type == Token.WS or (result == gen_item(self, gen_pos(self) - 1) and result.string == ')'"
+           f" and gen_cat(self, {P0}, gen_pos(self) - 1) == '' and len(self._stack) == 0)"],
+  raises=["SyntaxError"], properties=["C03", "C07"])
 
 C(f"{F}:Tokenizer.consume_with_macro_params", params=T, returns="Tok", verify=False,
   why_assumed="raw-capture loop over the generator: bounded stand-in only (C07)",
